@@ -23,9 +23,11 @@ import (
 // Go oracle's verdict.
 
 type modelOp struct {
-	kind string
-	tree string
-	rec  string
+	kind   string
+	tree   string
+	rec    string
+	dups   []string // noerror-add: ids in the batch that are stored already
+	queued bool     // tree-create-child: the parent is queued for deletion
 }
 
 const orderWidth = 48
@@ -66,6 +68,12 @@ func (rn *runner) modelLine(op *opSpec, post *Dump) (string, bool) {
 		return "op tree-create " + in.get(m.tree), true
 	case "tree-delete":
 		return "op tree-delete " + in.get(m.tree), true
+	case "tree-create-child":
+		q := "0"
+		if m.queued {
+			q = "1"
+		}
+		return "op tree-create-child " + in.get(m.tree) + " " + q, true
 	case "acl-add":
 		for _, r := range post.Colls[rn.fx.aclId] {
 			if r.Id == m.rec {
@@ -113,6 +121,22 @@ func (rn *runner) modelLine(op *opSpec, post *Dump) (string, bool) {
 		verb := "addall"
 		if m.kind == "tree-create-deferred" {
 			verb = "deferred"
+		}
+		if m.kind == "noerror-add" {
+			dl := make([]string, len(m.dups))
+			for i, d := range m.dups {
+				dl[i] = in.get(d)
+			}
+			ds := "-"
+			if len(dl) > 0 {
+				ds = strings.Join(dl, ",")
+			}
+			verb = "addall-noerror " + in.get(m.tree) + " " + ds
+			hs := make([]string, len(op.heads))
+			for i, x := range op.heads {
+				hs[i] = in.get(x)
+			}
+			return fmt.Sprintf("op %s %s %s %s", verb, strings.Join(hs, ","), in.get(str(h.V["s"])), chl), true
 		}
 		heads := make([]string, len(op.heads))
 		for i, x := range op.heads {
@@ -184,7 +208,12 @@ func (d *Dump) modelDigest(fx *Fixture) string {
 }
 
 // checkModel: trace shape, post-crash state at every boundary, post-state and Consistent verdict.
-func (rn *runner) checkModel(op *opSpec, trace string, evs []Event, states [][2]string, post *Dump) {
+type imgState struct {
+	k             int
+	label, digest string
+}
+
+func (rn *runner) checkModel(op *opSpec, trace string, evs []Event, states []imgState, post *Dump) {
 	r := rn.r
 	line, ok := rn.modelLine(op, post)
 	if !ok {
@@ -195,22 +224,22 @@ func (rn *runner) checkModel(op *opSpec, trace string, evs []Event, states [][2]
 	ans := r.Ask(line)
 	r.Count("model.op")
 	batch := "-"
-	if strings.HasPrefix(line, "op addall ") || strings.HasPrefix(line, "op deferred ") {
+	if strings.HasPrefix(line, "op addall ") || strings.HasPrefix(line, "op deferred ") || strings.HasPrefix(line, "op addall-noerror ") {
 		batch = "1" // the real input must satisfy the theorems' input condition
 	}
 	if !r.Check(prop, "trace", ops, ans, trace+" | single=1 batch="+batch) {
 		rn.dead = true
 		return
 	}
-	for k, st := range states {
-		q := fmt.Sprintf("crash %d", k)
+	for _, st := range states {
+		q := fmt.Sprintf("crash %d", st.k)
 		ans := r.Ask(q)
 		r.Count("model.crash")
-		want := st[0] + " " + st[1]
+		want := st.label + " " + st.digest
 		if strings.HasPrefix(ans, "same ") {
 			// the model's pre- and post-state coincide (a batch that attached nothing): the real states
 			// differ only in the add-sequence field, which the model does not carry
-			want = "same " + st[1]
+			want = "same " + st.digest
 		}
 		if !r.Check(prop, "crash-state", append(append([]string{}, ops...), q), ans, want) {
 			rn.dead = true
